@@ -49,6 +49,23 @@ def _wire_rows(rng: random.Random, per_pgn: int):
             continue
         if base is None:
             continue
+        # the PGN number that differs only in the data-page bit (and the reserved bit) is unknown to the database for most PGNs:
+        # the long-lived decoders see a frame of it first - an identifier of its own, which is never confused with this one
+        for twin in (pgn ^ 0x10000, pgn ^ 0x20000):
+            if twin not in nums and ((twin >> 8) & 0xFF) >= 240:
+                from .. import clientrun as cr
+                from .. import fastpacket as fp
+                ident_t = (3 << 26) | (twin << 8) | 77
+                for fmt in ("ebyte", "usb", "yd"):
+                    try:
+                        if fmt == "ebyte":
+                            live[fmt][1].decode_tcp(bytes([0x88]) + ident_t.to_bytes(4, "big") + bytes(8))
+                        elif fmt == "usb":
+                            live[fmt][1].decode_usb(cr.usb_packet(ident_t, bytes(8)))
+                        else:
+                            live[fmt][1].decode_yacht_devices_string("00:00:00.000 R %08X 00 00 00 00 00 00 00 00" % ident_t)
+                    except Exception:       # noqa: BLE001
+                        pass
         for k in range(per_pgn + 1):
             if k < per_pgn or per_pgn == 0:
                 src, prio = rng.randrange(256), rng.randrange(8)
